@@ -70,3 +70,30 @@ Proof.
   - inversion I'; subst. exfalso. apply Ny. rewrite <- E. apply in_map. eapply in_combine_l; eassumption.
   - eapply IH; eassumption.
 Qed.
+
+(* ---- set_nth / nth ---- *)
+From DV Require Import Base.PyList.
+
+Lemma nth_set_nth_eq {A} (l : list A) k v z : k < length l -> nth k (set_nth l k v) z = v.
+Proof. revert k; induction l as [|a l IH]; intros [|k] L; cbn in *; try lia; [reflexivity|]. apply IH. lia. Qed.
+
+Lemma nth_set_nth_neq {A} (l : list A) k j v z : j <> k -> nth j (set_nth l k v) z = nth j l z.
+Proof.
+  revert k j; induction l as [|a l IH]; intros [|k] [|j] N; cbn; try reflexivity; try congruence.
+  apply IH. congruence.
+Qed.
+
+Lemma last_app_cons {A} (l : list A) a r d : last (l ++ a :: r) d = last (a :: r) d.
+Proof.
+  induction l as [|b l IH]; [reflexivity|]. cbn [app]. rewrite <- IH.
+  destruct (l ++ a :: r) eqn:E; [destruct l; discriminate|reflexivity].
+Qed.
+
+Lemma last_cons_in {A} (a : list A) x d : In (last (x :: a) d) (x :: a).
+Proof.
+  revert x; induction a as [|y a IH]; intro x; [left; reflexivity|].
+  right. change (last (x :: y :: a) d) with (last (y :: a) d). apply IH.
+Qed.
+
+Lemma combine_snd {A B} (a : list A) (b : list B) : length a = length b -> map snd (combine a b) = b.
+Proof. revert b; induction a as [|x a IH]; intros [|y b] L; cbn in *; try lia; [reflexivity|]. f_equal. apply IH. lia. Qed.
